@@ -565,9 +565,8 @@ def _rel_choice(mgrs, code: str, rp: str, dl: str):
 # the schedule counters.
 
 def _run_schedule(params: dict) -> dict:
-    res = runner.new_result(params['case'])
-    res['inconclusive'] = 'C09 workload B (kind=schedule) is not implemented yet'
-    return res
+    from ..c09sched import run_schedule
+    return run_schedule(params)
 
 
 # ---------------------------------------------------------------------------
@@ -579,7 +578,10 @@ def cases(tier: str, seed: int) -> list[dict]:
     out: list[dict] = []
     for i in range(n_batches):
         out.append({'kind': 'paths', 'case': i, 'seed': seed, 'start': i * PAIRS_PER_BATCH, 'n': PAIRS_PER_BATCH})
-    # workload B: {'kind': 'schedule', ...} cases are appended here once _run_schedule exists
+    # workload B: interleavings of 2-3 downloads of equally named files (vf/c09sched.py)
+    n_sched = 200 if tier == 'quick' else 8000
+    for i in range(n_sched):
+        out.append({'kind': 'schedule', 'case': len(out), 'seed': seed, 'i': i})
     return out
 
 
